@@ -480,6 +480,51 @@ func chItem(cs []*Choice, i int) *Choice {
 // le (little-endian words) and specVarint (zig-zag base-128) are in c17.go.
 
 // asmBlocks mirrors asm_blocks of Spec.v.
+// ---- structural sites of an encoding (for hostile mutation, C06) ----
+// When hostile is set, the site-th structural varint written by encodeDatum (a block
+// count, a sized block's count and size together, a union selector, a length) is
+// replaced by hostile bytes; Seen counts the sites.
+type hostilePlan struct {
+	Site, Seen int
+	Single     []byte // replacement for a single varint site
+	Pair       []byte // replacement for a (count, size) site
+	Hit        string // kind of the site that was replaced
+}
+
+var hostile *hostilePlan
+
+func structVarint(kind string, v int64) []byte {
+	if hostile != nil {
+		hostile.Seen++
+		if hostile.Seen-1 == hostile.Site {
+			hostile.Hit = kind
+			if kind == "count" && hostile.Pair != nil {
+				return hostile.Pair // an unsized block turned into a sized one with hostile fields
+			}
+			if hostile.Single != nil {
+				return hostile.Single
+			}
+		}
+	}
+	return specVarint(v)
+}
+
+func structPair(k, size int64) []byte {
+	if hostile != nil {
+		hostile.Seen++
+		if hostile.Seen-1 == hostile.Site {
+			hostile.Hit = "sized"
+			if hostile.Pair != nil {
+				return hostile.Pair
+			}
+			if hostile.Single != nil {
+				return append(append([]byte{}, hostile.Single...), specVarint(size)...)
+			}
+		}
+	}
+	return nil
+}
+
 func asmBlocks(cuts []Cut, items [][]byte) []byte {
 	var out []byte
 	for {
@@ -487,7 +532,7 @@ func asmBlocks(cuts []Cut, items [][]byte) []byte {
 			return append(out, 0)
 		}
 		if len(cuts) == 0 {
-			out = append(out, specVarint(int64(len(items)))...)
+			out = append(out, structVarint("count", int64(len(items)))...)
 			for _, it := range items {
 				out = append(out, it...)
 			}
@@ -503,10 +548,14 @@ func asmBlocks(cuts []Cut, items [][]byte) []byte {
 			body = append(body, it...)
 		}
 		if cuts[0].Sized {
-			out = append(out, specVarint(-int64(k))...)
-			out = append(out, specVarint(int64(len(body)))...)
+			if h := structPair(int64(k), int64(len(body))); h != nil {
+				out = append(out, h...)
+			} else {
+				out = append(out, specVarint(-int64(k))...)
+				out = append(out, specVarint(int64(len(body)))...)
+			}
 		} else {
-			out = append(out, specVarint(int64(k))...)
+			out = append(out, structVarint("count", int64(k))...)
 		}
 		out = append(out, body...)
 		cuts, items = cuts[1:], items[k:]
@@ -537,7 +586,7 @@ func encodeDatum(s avro.Schema, d *Datum, ch *Choice) []byte {
 	case s.Type == "double" && d.K == "double":
 		return le(8, d.F)
 	case s.Type == "bytes" && d.K == "bytes", s.Type == "string" && d.K == "string":
-		return append(specVarint(int64(len(d.Bytes))), d.Bytes...)
+		return append(structVarint("len", int64(len(d.Bytes))), d.Bytes...)
 	case s.Type == "fixed" && d.K == "fixed":
 		return append([]byte(nil), d.Bytes...)
 	case s.Type == "record" && d.K == "record":
@@ -571,12 +620,12 @@ func encodeDatum(s avro.Schema, d *Datum, ch *Choice) []byte {
 			if i < len(d.Keys) {
 				k = d.Keys[i]
 			}
-			e := append(specVarint(int64(len(k))), k...)
+			e := append(structVarint("len", int64(len(k))), k...)
 			items[i] = append(e, encodeDatum(s.Object.Values, x, chItem(ch.Items, i))...)
 		}
 		return asmBlocks(ch.Cuts, items)
 	case s.Type == "union" && d.K == "union":
-		out := specVarint(int64(d.Branch))
+		out := structVarint("sel", int64(d.Branch))
 		if d.Branch >= 0 && d.Branch < len(s.Union) {
 			out = append(out, encodeDatum(s.Union[d.Branch], d.Inner, ch.Inner)...)
 		}
@@ -838,16 +887,29 @@ func compatRecord(rng *rand.Rand, s avro.Schema, top bool) (*GT, bool) {
 		json string
 		t    *GT
 	}
-	var fs []fld
+	var fs, dropped []fld
 	for _, f := range s.Object.Fields {
 		if rng.Intn(7) == 0 {
-			continue // dropped: the reader skips it
+			// dropped: the reader skips it
+			if t, ok := compatType(rng, f.Type, true); ok {
+				dropped = append(dropped, fld{f.Name, t})
+			}
+			continue
 		}
 		t, ok := compatType(rng, f.Type, true)
 		if !ok {
 			continue
 		}
 		fs = append(fs, fld{f.Name, t})
+	}
+	// sometimes the dropped fields live on in an embedded struct: the library selects
+	// the outer struct's own fields by name, promoted fields are not targets
+	var emb *GT
+	if len(dropped) > 0 && rng.Intn(2) == 0 {
+		emb = &GT{Kind: "struct"}
+		for i, f := range dropped {
+			emb.Fields = append(emb.Fields, GF{Name: "E" + strconv.Itoa(i), Exported: true, JSON: f.json, T: f.t})
+		}
 	}
 	for i, n := 0, rng.Intn(6)-3; i < n; i++ { // extras not in the schema
 		k := basicTargetKinds[rng.Intn(len(basicTargetKinds))]
@@ -863,6 +925,14 @@ func compatRecord(rng *rand.Rand, s avro.Schema, top bool) (*GT, bool) {
 	g := &GT{Kind: "struct"}
 	for i, f := range fs {
 		g.Fields = append(g.Fields, GF{Name: "F" + strconv.Itoa(i), Exported: true, JSON: f.json, T: f.t})
+	}
+	if emb != nil {
+		at := len(g.Fields)
+		if at > 1 {
+			at = 1 + rng.Intn(at)
+		}
+		ef := GF{Name: "Emb", Exported: true, Embedded: true, T: emb}
+		g.Fields = append(g.Fields[:at:at], append([]GF{ef}, g.Fields[at:]...)...)
 	}
 	return g, true
 }
